@@ -100,4 +100,21 @@ theorem every_result_has_its_own_word :
       rw [h]; decide
   | _ => decide
 
+/-- … and so is every attempt on its `TRY k …` line (`short_status_str`, as read on this run) -/
+theorem every_attempt_has_its_own_word :
+    (∀ r : Res, (shortStatusKey r, shortStatusWord r) ∈ Gen.shortStatusWords) ∧
+    (Gen.shortStatusWords.map (·.1)).Nodup ∧ (Gen.shortStatusWords.map (·.2)).Nodup := by
+  refine ⟨?_, by decide, by decide⟩
+  intro r
+  cases r with
+  | fail sg lk =>
+    cases sg with
+    | none =>
+      have h : (shortStatusKey (.fail none lk), shortStatusWord (.fail none lk)) = ("Fail", "FAIL") := rfl
+      rw [h]; decide
+    | some n =>
+      have h : (shortStatusKey (.fail (some n) lk), shortStatusWord (.fail (some n) lk)) = ("Fail/signal", "s|SIG") := rfl
+      rw [h]; decide
+  | _ => decide
+
 end NextestModel.C03
